@@ -104,6 +104,11 @@ func n3Episode(t *testing.T, r *kit.Run, ep int, maxN int, steps int) {
 		case "below-plus-foreign":
 			kinds = append(rp(n3.Valid, m-1), rp([]n3.SlotKind{n3.Foreign, n3.BadSig}[rng.Intn(2)], 1+rng.Intn(2))...)
 			rng.Shuffle(len(kinds), func(a, b int) { kinds[a], kinds[b] = kinds[b], kinds[a] })
+		case "below-plus-garbage":
+			kinds = append(rp(n3.Valid, m-1), rp(n3.Garbage, 1+rng.Intn(n-m+2))...)
+			if rng.Intn(2) == 0 {
+				rng.Shuffle(len(kinds), func(a, b int) { kinds[a], kinds[b] = kinds[b], kinds[a] })
+			}
 		case "not-higher":
 			h.SetIndex(before.Height - uint32(rng.Intn(3)))
 			kinds = rp(n3.Valid, m)
@@ -140,7 +145,7 @@ func n3Episode(t *testing.T, r *kit.Run, ep int, maxN int, steps int) {
 		}
 		return out
 	}
-	shapes := []string{"honest", "honest", "below", "one-key-repeated", "below-plus-foreign", "not-higher", "no-change", "other-committee", "weaker-script", "random"}
+	shapes := []string{"honest", "honest", "below", "one-key-repeated", "below-plus-foreign", "below-plus-garbage", "not-higher", "no-change", "other-committee", "weaker-script", "random"}
 	for step := 0; step < steps; step++ {
 		before := n3Read(e)
 		cur = sets[before.Next]
